@@ -797,6 +797,10 @@ P_req(s, f) ==
               IN Goto(SetL(s, f, IF q.hasname THEN PidSeq(s.ws[i]) ELSE Cat(all)), f, "rs")
          ELSE IF q.cmd \in {"status", "numprocesses", "list", "numwatchers", "options"}
          THEN Reply(Goto(s, f, "z"), cid, q.mid, IF q.cmd = "status" /\ q.hasname THEN s.ws[i].st ELSE "ok", 0)
+         \* get <name> <keys>, globaloptions [option], listsockets: read-only; an unknown key / option is a MessageError
+         ELSE IF q.cmd \in {"get", "globaloptions", "listsockets"}
+         THEN IF q.rovalid THEN Reply(Goto(s, f, "z"), cid, q.mid, "ok", 0)
+              ELSE Reply(Goto(s, f, "z"), cid, q.mid, "error", 3)
          ELSE IF q.cmd \in {"add", "rm"} THEN Goto(s, f, "d")
          ELSE IF q.cmd \notin {"incr", "decr", "kill", "signal", "start", "stop", "restart", "reload", "set", "quit",
                                "reloadconfig"}
@@ -995,7 +999,8 @@ QuitReq == [cmd |-> "quit", name |-> "", lname |-> "", hasname |-> FALSE, mid |-
             cast |-> FALSE, pid |-> -1, signum |-> -1, children |-> FALSE, recursive |-> FALSE, childpid |-> -1,
             nb |-> 1, G |-> -1, nostop |-> FALSE, graceful |-> TRUE, sequential |-> FALSE, raw |-> FALSE,
             start |-> FALSE, addnp |-> 1, addG |-> 1, addW |-> 0, addsing |-> FALSE, nopts |-> 1, pattern |-> FALSE,
-            opts |-> <<>>, matches |-> <<>>, file |-> <<>>, plan |-> [chg |-> <<>>, del |-> <<>>, add |-> <<>>]]
+            opts |-> <<>>, matches |-> <<>>, file |-> <<>>, plan |-> [chg |-> <<>>, del |-> <<>>, add |-> <<>>],
+            rovalid |-> TRUE]
 
 Dispatch(s, f, ob) ==
   LET fn == s.fr[f].fn IN
